@@ -278,6 +278,17 @@ func (c *Ctx) Violation(key, what string, witness interface{}) {
 	os.WriteFile(path, b, 0o644)
 	fmt.Printf("VIOLATION property=%s replay=%s\n", c.ID, path)
 	fmt.Printf("  key=%s: %s\n", key, what)
+	// for the supervisor, should this process not live to finish the run
+	if f, err := os.OpenFile(ViolationsLog(c.ID), os.O_CREATE|os.O_WRONLY|os.O_APPEND, 0o644); err == nil {
+		fmt.Fprintf(f, "%s\t%s\n", key, path)
+		f.Close()
+	}
+}
+
+// ViolationsLog is where a monitor process notes every violation it has
+// printed (one line each); the supervisor empties it before a run.
+func ViolationsLog(id string) string {
+	return filepath.Join(VerifDir, ".build", "violations-"+id+".log")
 }
 
 func sanitize(s string) string {
